@@ -17,9 +17,10 @@ Tr == ndJsonDeserialize(IOEnv.TRACE)
 E == Tr[l]
 Is(op) == l <= Len(Tr) /\ Tr[l].op = op /\ l' = l + 1
 
-\* the statement allows a failing request to answer "NULL (or bad_alloc)": either is a clean failure, whatever the entry point
-Failed(x) == x \in {"null", "badalloc"}
-ObsOK(r, b) == /\ (E.ret = r.ret \/ (Failed(E.ret) /\ Failed(r.ret))) /\ E.rep = r.rep /\ E.n = r.n /\ E.over = r.over
+\* "yields NULL (or bad_alloc)": which of the two is fixed by the entry point (LeakBlocks!FailRet) - the forms of operator new that are declared
+\* to throw answer bad_alloc (a new-expression does not test their result: a NULL from them is a constructor run at address 0), the nothrow
+\* forms and the malloc family answer NULL.  The harness is built with exceptions enabled.
+ObsOK(r, b) == /\ E.ret = r.ret /\ E.rep = r.rep /\ E.n = r.n /\ E.over = r.over
                /\ E.live = Cardinality({ s \in Slots : b[s] # NoBlk })
                /\ E.intact /\ E.clean
                /\ r.ret = "ptr" => (E.inside /\ E.aligned)
@@ -33,6 +34,7 @@ Call == \/ Is("alloc") /\ Alloc(E.ep, E.s, E.sz, E.fault)
         \/ Is("write") /\ Write(E.s, E.pos, E.val)
         \/ Is("release") /\ IF E.s = -1 THEN ReleaseNull(E.ep) ELSE IF E.s = -2 THEN ReleaseForeign(E.ep) ELSE Release(E.ep, E.s, E.pos)
         \/ Is("typecheck") /\ SetTypeCheck(E.val = 1)
+        \/ Is("period") /\ SetPeriod(E.var)
         \/ Is("setalloc") /\ SetAlloc(E.ep, E.var)
 TInit == Init /\ l = 1
 TNext == Call /\ ObsOK(res', blk')
